@@ -1387,7 +1387,7 @@ def wrapper_theorems(u, done):
     if hc:
         add("eq", f"∀ a b, {E}.eq a b = Hc128.beq a b", ["C10"],
             f"intro a b\n  have he : Ext.{Cn}.eq = Hc128.Core.beq := by funext x y; exact ExtTie.{Cn}.eq x y\n"
-            f"  simp only [{E}.eq, he, ExtTie.{blk}.index, Hc128.beq]\n  first | done | rfl")
+            f"  simp only [{E}.eq, he, ExtTie.{blk}.index, Hc128.beq]\n  first | done | rfl | ac_rfl")
     return th, proofs
 
 # ------------------------------------------------------------------ `loop { … break … }` around draws from a byte source
